@@ -39,6 +39,9 @@ ASSUMPTIONS = [
     'vlib/c08_ref.py is the RFC 7606 reading: treat-as-withdraw for ORIGIN, AS_PATH, NEXT_HOP, MED, LOCAL_PREF, COMMUNITIES, ORIGINATOR_ID, CLUSTER_LIST, EXTENDED_COMMUNITIES, LARGE_COMMUNITIES '
     '(RFC 8092); attribute discard for ATOMIC_AGGREGATE, AGGREGATOR, AS4_PATH, AS4_AGGREGATOR (RFC 6793 6), AIGP (RFC 7311 3.2); session reset for a malformed or repeated MP_REACH / MP_UNREACH',
     'a reaction stronger than the RFC asks (withdraw instead of discard, reset instead of withdraw) is accepted; a session reset must carry error code 3 (UPDATE Message Error), any subcode',
+    'where the RFC asks for a session reset (malformed / repeated MP_REACH or MP_UNREACH, unrecognised well-known attribute) treat-as-withdraw is accepted as equally safe for this property: nothing announced, '
+    'every route of the message that can be located reported withdrawn and out of Adj-RIB-In (class rfc-asks-reset:withdrawn-instead). When no NLRI can be located at all (e.g. zero-length MP_REACH) this '
+    'is satisfied by an UPDATE that announces and withdraws nothing: routes the peer announced earlier then stay (class earlier-routes-stay:no-locatable-nlri) - RFC 7606 7.11 resets for that reason, the property statement does not demand it',
     'framing errors of the attribute list (RFC 7606 4: declared length past the Total Attribute Length, fewer than 3/4 octets left): treat-as-withdraw and session reset are both accepted; under '
     'treat-as-withdraw only the NLRI that can be located (NLRI field, MP_REACH delimited before the error) must be reported withdrawn',
     'wrong Optional/Transitive bits: treat-as-withdraw for the treat-as-withdraw class (3.c); discard or withdraw for the discard class, PMSI_TUNNEL and AIGP; withdraw or reset for MP_REACH / MP_UNREACH whose content is readable',
@@ -588,6 +591,7 @@ class _Judge:
         self.attr = attr
         self.kind = kind
         self.marked = 'unmarked'
+        self.own_decisive = True
         self.rib = ''
         self.tail = f'UPDATE {body.hex()} session asn4={session["asn4"]} addpath={session["addpath"]} peer-as={session["peer_as"]}; reference: {faults}'
 
@@ -605,9 +609,10 @@ class _Judge:
 
     def announced(self, clause: str, text: str) -> None:
         """a clause about routes let in: bucket by the parser's own record"""
-        if self.marked in ('marked-withdraw', 'marked-discard'):
-            self.fail(f'announced-despite-malformed:{self.marked}', f'({clause}) {text}', 'attr')
-        self.fail(f'{clause}:{self.marked}', text)
+        if self.marked == 'marked-withdraw':
+            self.fail('announced-despite-malformed:marked-withdraw', f'({clause}) {text}', 'attr')
+        # a discard mark says nothing about a fault that asks for more than discard: folded into 'unmarked'
+        self.fail(f'{clause}:unmarked', f'(parser: {self.marked}) {text}')
 
 
 def check(case: dict) -> dict:
@@ -648,22 +653,26 @@ def _check(case: dict) -> dict:
     classes.append(f'session:asn4={int(session["asn4"])},addpath={int(bool(session["addpath"]))},{"ebgp" if session["peer_as"] != 65000 else "ibgp"}')
     faults = ', '.join(f'{ref.name(f["code"])}/{f["kind"]}' for f in ana['faults']) or 'none'
     judge = _Judge(attr, kind, body, session, f'faults [{faults}] allowed {sorted(ana["allowed"])}')
-    own = [f['kind'] for f in ana['faults'] if f['code'] == what['code']]
-    if 'unrecognized-wellknown' in own or (not own and ana['faults'] and ana['faults'][0]['kind'] == 'unrecognized-wellknown'):
+    # naming only: the faults that decide (those attribute discard does not answer, if there is any such fault)
+    decisive = [f for f in ana['faults'] if 'discard' not in f['allowed']] or ana['faults']
+    own = [f['kind'] for f in decisive if f['code'] == what['code']]
+    judge.own_decisive = bool(own)
+    if decisive and (('unrecognized-wellknown' in own) or (not own and decisive[0]['kind'] == 'unrecognized-wellknown')):
         # one cause however it came about: an attribute nobody knows, with the Optional bit clear
         judge.attr, judge.kind = 'UNKNOWN', 'unrecognized-wellknown'
     elif case['cor']['kind'] == 'flags' and 'flags' in own:
         judge.kind = 'flags'
-    elif ana['faults'] and not any(f['code'] == what['code'] for f in ana['faults']):
-        # the corrupted attribute itself still reads well (a length field moved the boundaries): what is wrong is what follows
-        first = ana['faults'][0]
+    elif decisive and not own:
+        # the corrupted attribute itself reads well, or is only to be discarded (a length field moved the boundaries):
+        # what decides is what follows
+        first = decisive[0]
         judge.attr, judge.kind = ref.name(first['code']), f'{first["kind"]}-behind-shifted-boundary'
-    elif what['code'] in (14, 15) and any(f['code'] == what['code'] and f['kind'] == 'value' for f in ana['faults']):
+    elif what['code'] in (14, 15) and 'value' in own:
         # whatever was done to it, the attribute now holds a next hop or an NLRI that cannot be read
         judge.kind = 'unreadable-nexthop-or-nlri'
     elif case['cor']['kind'] in ('lenfield', 'extlen', 'flip') or case['cor'].get('random'):
         # a moved boundary or random bytes: name the fault it makes of the attribute itself (zero-length, value, framing:overrun ...)
-        judge.kind = next((f['kind'] for f in ana['faults'] if f['code'] == what['code']), kind)
+        judge.kind = own[0] if own else kind
 
     if body == base_body or ana['allowed'] == frozenset({'ok'}):
         return {'nontrivial': False, 'classes': classes + ['corruption-left-a-wellformed-update']}
@@ -788,15 +797,15 @@ def _check(case: dict) -> dict:
         reported = api['withdraw'] if api else set()
         still = msg_routes & set(after)
         lost = {k for k in base_ref['announce'] if k in after and k not in msg_routes}
-        if not msg_routes and 'withdraw' not in allowed:
-            # no NLRI can be located and the session goes on: what the peer announced before stays, unreported
-            how = 'no API event' if api is None else ('End-of-RIB reported' if 'eor' in api else f'API event without the routes (withdraw {sorted(map(str, reported))[:2]})')
-            judge.fail(f'neither-withdrawn-nor-reset:{marked}', f'{how}; {sorted(map(str, lost))[:2]} announced earlier stay in Adj-RIB-In; RFC 7606 asks for {sorted(allowed)}')
         if msg_routes <= reported and not still:
             if 'withdraw' not in allowed:
-                judge.fail('withdrawn-where-reset-required', f'routes reported withdrawn, {sorted(allowed)} required')
+                # the RFC says session reset (NLRI that cannot be located, repeated MP attribute, unrecognised well-known):
+                # nothing is announced and every route that can be located is withdrawn - taken as equally safe
+                classes.append('rfc-asks-reset:withdrawn-instead')
             if not msg_routes:
                 classes.append('withdraw-with-no-locatable-nlri')
+                if lost:
+                    classes.append('earlier-routes-stay:no-locatable-nlri')
             missing = explicit - reported
             if missing:
                 judge.fail('withdraw:explicit-withdraw-lost', f'{sorted(map(str, missing))[:2]} withdrawn by the UPDATE but not reported')
